@@ -330,12 +330,22 @@ def judge(chk, c, o, H, A, W, impl_line, ref_exact, source):
             edge = 'first' if ref_prev_lf(c, o) is None else 'last'
             if ref_prev_lf(c, o) is not None and term:
                 edge = 'interior'
-            chk.dist(f'GAP_maxline_within_limit_{edge}_line')
-            key = ('gap', edge, H == detail.get('real_H'))
-            _SEEN[key] = _SEEN.get(key, 0) + 1
-            if _SEEN[key] <= 2:
+            if ref_exact == [0]:
+                # the shape of the modelled code: a first / unterminated last
+                # line only gets (A-1)*H (Props/C11.v C11_first_line_gap,
+                # C11_last_line_gap)
+                chk.dist(f'GAP_maxline_within_limit_{edge}_line')
+                key = ('gap', edge, H)
+                _SEEN[key] = _SEEN.get(key, 0) + 1
+                if _SEEN[key] <= 1 and sum(
+                        1 for k in _SEEN if k[0] == 'gap') <= 4:
+                    chk.violation(
+                        f'maxline-raised-within-limit edge={edge}-line',
+                        detail)
+            else:
                 chk.violation(
-                    f'maxline-raised-within-limit edge={edge}-line', detail)
+                    f'maxline-raised-inside-exact-budget edge={edge}-line',
+                    detail)
             return True
         return False
     # a line was returned: must be THE line (when the line is within limit)
@@ -510,6 +520,112 @@ def position_runs(chk, n):
                                          'L': L, 'position': pos}})
 
 
+
+# ------------------------------------------ lookups after other operations
+def history_runs(chk, n):
+    """ the lookup must not depend on what the seeker did before: random
+    interleavings of timestamp lookups (seeker[o], which run the backward /
+    forward fallbacks) and plain lookups on ONE seeker object, any order of
+    offsets; every plain lookup is judged against the reference """
+    import datetime
+    from searchkit import constraints as K
+
+    class TS(K.TimestampMatcherBase):
+        @property
+        def patterns(self):
+            return [r'^(?P<year>\d{4})-(?P<month>\d{2})-(?P<day>\d{2}) '
+                    r'(?P<hours>\d{2}):(?P<minutes>\d{2}):(?P<seconds>\d{2})']
+
+    class NamedBytesIO(io.BytesIO):
+        name = 'c11-history'
+
+    rng = chk.rng
+    base = datetime.datetime(2022, 1, 1)
+    S = K.LogFileDateSinceSeeker
+    for k in range(n):
+        H = rng.choice([3, 4, 8, 16, 256])
+        A = 4096
+        L = rng.choice([2, 3, 500])
+        W = 64
+        out = bytearray()
+        t = 0
+        nl = rng.randrange(2, 9)
+        for i in range(nl):
+            r = rng.random()
+            if r < 0.4:
+                t += rng.choice([0, 1, 60])
+                out += (base + datetime.timedelta(seconds=t)).strftime(
+                    '%Y-%m-%d %H:%M:%S').encode() + rng.choice([b'', b' A',
+                                                                b' msg'])
+            elif r < 0.7:
+                out += b''                         # empty line
+            else:
+                out += rng.choice([b'A', b'uu', b'x2022-01-01 00:00:00'])
+            if i < nl - 1 or rng.random() < 0.6:
+                out += b'\n'
+        c = bytes(out)
+        if not c:
+            continue
+        ops = []
+        for _ in range(3 * (len(c) + 1) if len(c) < 60 else 150):
+            kind = rng.choice(['getitem', 'getitem', 'line', 'line', 'fwd',
+                               'bwd'])
+            ops.append((kind, rng.randrange(0, len(c) if kind == 'getitem'
+                                            else len(c) + 1)))
+        saved_l = S.MAX_TRY_FIND_WITH_DATE_ATTEMPTS
+        try:
+            with Patched(H, A, W):
+                S.MAX_TRY_FIND_WITH_DATE_ATTEMPTS = L
+                cons = K.SearchConstraintSearchSince(
+                    current_date=(base + datetime.timedelta(
+                        seconds=rng.choice([0, t // 2, t + 1]))).strftime(
+                            '%Y-%m-%d %H:%M:%S'),
+                    ts_matcher_cls=TS, days=0, hours=0)
+                seeker = S(NamedBytesIO(c), cons)
+                trace = []
+                for kind, o in ops:
+                    if kind == 'getitem':
+                        try:
+                            seeker[o]       # pylint: disable=pointless-statement
+                        except (K.TooManyLinesWithoutDate,
+                                K.MaxSearchableLineLengthReached,
+                                AssertionError):
+                            pass
+                        trace.append(['getitem', o])
+                        continue
+                    chk.coverage['evaluations'] += 1
+                    chk.dist('history_lookups')
+                    if kind == 'line':
+                        try:
+                            ln = seeker.try_find_line(o)
+                            got = [_st(ln.start_lf), _st(ln.end_lf),
+                                   ln.start_offset, ln.end_offset,
+                                   list(ln._read_line(W))]  # noqa, pylint: disable=protected-access
+                        except K.MaxSearchableLineLengthReached:
+                            got = [0]
+                        except AssertionError:
+                            got = [-1]
+                        want = ref_lookup(c, o, H, A, W, window=True)
+                    elif kind == 'fwd':
+                        got, want = _tok(seeker.find_token, o), \
+                            ref_fwd(c, o, H, A)
+                    else:
+                        got, want = _tok(seeker.find_token_reverse, o), \
+                            ref_bwd(c, o, H, A)
+                    trace.append([kind, o])
+                    if got != want:
+                        chk.violation('lookup-depends-on-history', {
+                            'content': list(c), 'SEEK_HORIZON': H,
+                            'MAX_SEEK_HORIZON_EXPAND': A,
+                            'MAX_TRY_FIND_WITH_DATE_ATTEMPTS': L,
+                            'operations_on_one_seeker': trace[-12:],
+                            'failing_operation': [kind, o],
+                            'impl': got, 'line_containing_offset': want})
+                        break
+        finally:
+            S.MAX_TRY_FIND_WITH_DATE_ATTEMPTS = saved_l
+    chk.dist('history_files', n)
+
 # ---------------------------------------------------------------------- run
 def run(chk):
     chk.prove(PROPS)
@@ -527,7 +643,10 @@ def run(chk):
         "up to a length; (c) the real constants with line lengths around "
         "64/255/256/257/511/512/513/1024, leading/trailing/consecutive/no "
         "LFs; (d) 1 MiB-scale single lookups at the budget boundary "
-        "(implementation vs reference only). distinct_nontrivial = number of "
+        "(implementation vs reference only); (e) random interleavings of "
+        "seeker[o] and plain lookups on one seeker object (history "
+        "independence); (f) apply_to_file positions on arbitrary logs. "
+        "distinct_nontrivial = number of "
         "distinct lookup shapes (H, A, distance to previous LF or start, "
         "distance to next LF or end)")
     shapes = set()
@@ -557,8 +676,8 @@ def run(chk):
             chk.dist('big_' + name.split(':')[0] +
                      ('_maxline' if rec[-1] == [0] else '_line'))
             shapes.add(shape(c, o, H0, A0))
-            judge(chk, c, o, H0, A0, W0, rec[-1], None, 'big/' + name)
             exact = ref_lookup(c, o, H0, A0, W0, window=False)
+            judge(chk, c, o, H0, A0, W0, rec[-1], exact, 'big/' + name)
             if rec[-1] != exact:
                 chk.violation(
                     f"model-vs-impl big/{name.split(':')[0]} H={H0} A={A0}",
@@ -617,7 +736,8 @@ def run(chk):
                                              if b == LF]}})
 
     # the position a since constraint leaves the file at
-    position_runs(chk, 150 if chk.quick else 1500)
+    position_runs(chk, 200 if chk.quick else 2000)
+    history_runs(chk, 60 if chk.quick else 600)
 
     chk.coverage['distinct_nontrivial'] += len(shapes)
     chk.assumptions += [
